@@ -87,12 +87,19 @@ def _layouts(tier):
 
 def _chan(tier, n):
     kmax = 3.0 if tier == "quick" else 6.0
-    gauss = st.fixed_dictionaries(dict(kind=st.just("gauss"), seed=seeds,
-                                       scale=loguniform(-2, 2)))
+    # overall magnitude: order one, a few decades around it, or a linear
+    # path-loss amplitude down to -200 dB (extreme but valid; every statement
+    # of the property is scale free)
+    gauss = st.fixed_dictionaries(dict(
+        kind=st.just("gauss"), seed=seeds,
+        scale=st.one_of(loguniform(-2, 2), loguniform(-2, 2),
+                        loguniform(-10, -2))))
 
     def svd(u):
         return st.fixed_dictionaries(dict(
-            kind=st.just("svd"), seed=seeds, scale=loguniform(-3, 3),
+            kind=st.just("svd"), seed=seeds,
+            scale=st.one_of(loguniform(-3, 3), loguniform(-3, 3),
+                            loguniform(-10, -3)),
             logk=fl(0.0, kmax), u=u))
     # generic: exponents of the singular values uniform from the seed
     # (u=None); drawn: Hypothesis picks them (boundaries, clusters);
@@ -122,7 +129,10 @@ def _extint_cases(draw, tier):
     case = dict(part="extint", K=K, N=N, chan=draw(_chan(tier, K * N)),
                 ext=draw(st.sampled_from(_EXT)), ext_seed=draw(seeds),
                 iPu=draw(loguniform(-3, 3)), noise=draw(loguniform(-4, 1)),
-                pe=draw(loguniform(-3, 3)), variant=variant)
+                pe=draw(loguniform(-3, 3)), variant=variant,
+                # the SAME BD object and the SAME channel object were used
+                # before with another channel realisation
+                reuse=draw(st.sampled_from([None, None, "init", "randomize"])))
     if variant == "enhanced":
         metric = draw(st.sampled_from(_METRICS + ["fixed", "capacity"]))
         case["metric"] = metric
@@ -383,6 +393,20 @@ def _check_extint(case, ctx):
             ctx.label("mod=%s%d" % tuple(case["mod"]))
         else:
             obj.set_ext_int_handling_metric(metric)
+    if case.get("reuse"):
+        # history: both objects already served another channel realisation;
+        # the result for the CURRENT channel must not depend on that
+        ctx.label("reuse:" + case["reuse"])
+        ext_arg = ext if isinstance(ext, int) else list(ext)
+        if case["reuse"] == "randomize":
+            mu.randomize(Nr, Nt, K, ext_arg)
+        else:
+            warm = _randc(np.random.RandomState(case["ext_seed"] + 1), n,
+                          n + r_tot)
+            mu.init_from_channel_matrix(warm, Nr, Nt, K, ext_arg)
+        with np.errstate(all="ignore"):
+            obj.block_diagonalize_no_waterfilling(mu)
+        mu.init_from_channel_matrix(big.copy(), Nr, Nt, K, ext_arg)
     with np.errstate(all="ignore"):
         Ms_all, W_all, Ns_all = obj.block_diagonalize_no_waterfilling(mu)
 
